@@ -172,17 +172,18 @@ InlineCall(p, pat, ctx) ==
                  x == HeadExprOf(r, pat[i][1]).name
              IN IF x \in DOMAIN acc
                 THEN IF Cmp3("==", acc[x], pat[i][3]) = "t" THEN Pre(idx \ {i}, acc) ELSE <<>>
-                ELSE IF IsNull(pat[i][3]) THEN <<>>
-                ELSE Pre(idx \ {i}, Bind(acc, x, pat[i][3]))
+                ELSE Pre(idx \ {i}, Bind(acc, x, pat[i][3]))   \* substitution: also for null
       pre == Pre(PreIdx, EmptyB)
       sols == Solve(r.body, pre, V, ctx)
-      \* per solution: evaluate the remaining head arguments, then match
+      \* the arguments that were not substituted are evaluated and matched
+      rest == SelectSeq([i \in 1..Len(pat) |-> IF i \in PreIdx THEN <<>> ELSE pat[i]],
+                        LAMBDA a : a # <<>>)
       Finish(s) ==
-        LET hv == Cross([i \in 1..Len(pat) |-> EvalM(HeadExprOf(r, pat[i][1]), s, V, ctx)])
+        LET hv == Cross([i \in 1..Len(rest) |-> EvalM(HeadExprOf(r, rest[i][1]), s, V, ctx)])
         IN FlatMap(hv, LAMBDA vals :
-             MatchArgs([f \in {pat[i][1] : i \in 1..Len(pat)} |->
-                          vals[CHOOSE i \in 1..Len(pat) : pat[i][1] = f]],
-                       pat, EmptyB))
+             MatchArgs([f \in {rest[i][1] : i \in 1..Len(rest)} |->
+                          vals[CHOOSE i \in 1..Len(rest) : rest[i][1] = f]],
+                       rest, EmptyB))
   IN FlatMap(sols, Finish)
 
 Lookup(p, pat, ctx) ==
@@ -224,7 +225,7 @@ EvalM(e, b, V, ctx) ==
          LET V2 == V \cup DVE(e.e) \cup DVBody(e.body)
              sols == Solve(e.body, <<b>>, V2, ctx)
              vals == FlatMap(sols, LAMBDA s : EvalM(e.e, s, V2, ctx))
-         IN <<Agg(e.op, vals)>>
+         IN <<Agg(e.op, vals, ctx.dev)>>
 
 Apply(c, b, V, ctx) ==
   LET bound == DOMAIN b IN
@@ -358,8 +359,11 @@ PredRows(pred, ctx) ==
                  RowOf(k) == [f \in HeadFields(r1) |->
                                 IF f \in keyF THEN k[f]
                                 ELSE Agg(r1.head[HeadIdx(r1, f)].agg,
-                                         [i \in 1..Len(Group(k)) |-> Group(k)[i][f]])]
-             IN [i \in 1..Cardinality(keys) |-> RowOf(SetToSeq(keys)[i])]
+                                         [i \in 1..Len(Group(k)) |-> Group(k)[i][f]], ctx.dev)]
+                 EmptyKey == [f \in {} |-> Null]
+             IN IF keyF = {} /\ all = <<>> /\ "zero_key_one_row" \in ctx.dev
+                THEN <<RowOf(EmptyKey)>>
+                ELSE [i \in 1..Cardinality(keys) |-> RowOf(SetToSeq(keys)[i])]
   IN OrdLimit(pred, raw)
 
 -----------------------------------------------------------------------------
@@ -410,20 +414,20 @@ NeedsOf(pm, p) == {q \in Reads(pm, Mentions(pm[p]), Mentions(pm[p])) : TRUE}
 
 EmptyDb == ("$" :> <<>>)
 
-RECURSIVE SimIter(_, _, _, _, _)
-SimIter(pm, members, cur, db, n) ==
+RECURSIVE SimIter(_, _, _, _, _, _)
+SimIter(pm, members, cur, db, n, dev) ==
   IF n = 0 THEN cur
-  ELSE LET ctx == [preds |-> pm, db |-> cur @@ db]
+  ELSE LET ctx == [preds |-> pm, db |-> cur @@ db, dev |-> dev]
            nxt == [p \in members |-> PredRows(pm[p], ctx)]
-       IN SimIter(pm, members, nxt, db, n - 1)
+       IN SimIter(pm, members, nxt, db, n - 1, dev)
 
 CompOf(prog, p) ==
   IF \E i \in 1..Len(prog.rec) : p \in Range(prog.rec[i].members)
   THEN prog.rec[CHOOSE i \in 1..Len(prog.rec) : p \in Range(prog.rec[i].members)]
   ELSE [members |-> <<p>>, depth |-> -1]
 
-RECURSIVE EvalPreds(_, _, _, _)
-EvalPreds(prog, pm, todo, db) ==
+RECURSIVE EvalPreds(_, _, _, _, _)
+EvalPreds(prog, pm, todo, db, dev) ==
   IF todo = {} THEN db
   ELSE LET ready == {p \in todo :
                        LET c == CompOf(prog, p) IN
@@ -436,14 +440,16 @@ EvalPreds(prog, pm, todo, db) ==
                    ms == Range(c.members)
                IN IF c.depth < 0
                   THEN EvalPreds(prog, pm, todo \ {p},
-                                 (p :> PredRows(pm[p], [preds |-> pm, db |-> db])) @@ db)
+                                 (p :> PredRows(pm[p], [preds |-> pm, db |-> db, dev |-> dev])) @@ db, dev)
                   ELSE EvalPreds(prog, pm, todo \ ms,
-                                 SimIter(pm, ms, [q \in ms |-> <<>>], db, c.depth + 1) @@ db)
+                                 SimIter(pm, ms, [q \in ms |-> <<>>], db, c.depth + 1, dev) @@ db, dev)
 
-Den(prog) ==
+DenDev(prog, dev) ==
   LET pm == PredMap(prog)
       mat == {p \in DOMAIN pm : ~pm[p].inline}
-  IN EvalPreds(prog, pm, mat, EmptyDb)
+  IN EvalPreds(prog, pm, mat, EmptyDb, dev)
+
+Den(prog) == DenDev(prog, {})
 
 -----------------------------------------------------------------------------
 (* Comparing an observed table with the denoted bag.                        *)
